@@ -33,6 +33,7 @@ public:
 };
 #include <fstream>
 #include <typeinfo>
+#include <cstring>
 #include <cerrno>
 #include <csignal>
 #include <fcntl.h>
@@ -48,9 +49,10 @@ public:
 static int g_child_fd = -1;          // result pipe of the child (also marks "we are the child")
 static void raw_write(const char* s) { if (g_child_fd >= 0) { ssize_t r = write(g_child_fd, s, strlen(s)); (void)r; } }
 static void hard_exit(int code) { syscall(SYS_exit_group, code); for (;;) {} }
+extern "C" void __sanitizer_print_stack_trace(void) __attribute__((weak));
 extern "C" {
 void exit(int code) noexcept {
-  if (g_child_fd >= 0) { char b[64]; snprintf(b, sizeof b, "X exit %d\n", code); raw_write(b); hard_exit(97); }
+  if (g_child_fd >= 0) { char b[64]; snprintf(b, sizeof b, "X exit %d\n", code); raw_write(b); if (__sanitizer_print_stack_trace) __sanitizer_print_stack_trace(); hard_exit(97); }
   hard_exit(code);
 }
 void _exit(int code) noexcept {
@@ -62,9 +64,28 @@ void _Exit(int code) noexcept {
   hard_exit(code);
 }
 void abort(void) noexcept {
-  if (g_child_fd >= 0) { raw_write("X abort 0\n"); hard_exit(98); }
+  if (g_child_fd >= 0) { raw_write("X abort 0\n"); if (__sanitizer_print_stack_trace) __sanitizer_print_stack_trace(); hard_exit(98); }
   hard_exit(134);
 }
+}
+
+// ------------------------------------------------------------------ throw-site recording (for exceptions that escape the API)
+#include <dlfcn.h>
+#include <execinfo.h>
+static void* g_throw_bt[40]; static int g_throw_n = 0; static char g_throw_type[256];
+extern "C" void __cxa_throw(void* obj, void* tinfo, void (*dest)(void*)) {
+  typedef void (*fn_t)(void*, void*, void (*)(void*));
+  static fn_t real = (fn_t)dlsym(RTLD_NEXT, "__cxa_throw");
+  const char* nm = ((std::type_info*)tinfo)->name();
+  if (!strstr(nm, "Stop")) { g_throw_n = backtrace(g_throw_bt, 40); strncpy(g_throw_type, nm, 255); g_throw_type[255] = 0; }
+  real(obj, tinfo, dest);
+  for (;;) {}
+}
+static std::string throw_site() {
+  std::string s = g_throw_type[0] ? g_throw_type : "?";
+  char b[32];
+  for (int i = 0; i < g_throw_n; i++) { snprintf(b, sizeof b, ",%p", g_throw_bt[i]); s += b; }
+  return s;
 }
 
 // ------------------------------------------------------------------ instance with phase-tagged error/warning events
@@ -105,12 +126,16 @@ struct Case {
 };
 
 static std::string mask_banner(std::string s) {
+  // "-----\nEnd of Run after 0.012 Seconds.\n-----": the dash lines are as long as the text, which depends on the timing
   const std::string a = "End of Run after ";
   size_t p = 0;
   while ((p = s.find(a, p)) != std::string::npos) {
     size_t q = s.find(" Seconds", p);
     if (q == std::string::npos) break;
     s.replace(p + a.size(), q - p - a.size(), "X");
+    size_t e = s.find('\n', p);
+    if (e != std::string::npos) { size_t f = e + 1; while (f < s.size() && s[f] == '-') ++f; s.erase(e + 1, f - e - 1); }
+    if (p > 0 && s[p - 1] == '\n') { size_t b = p - 1; while (b > 0 && s[b - 1] == '-') --b; s.erase(b, p - 1 - b); p = b + 1; }
     p += a.size();
   }
   return s;
@@ -214,8 +239,9 @@ static void child_main(const Case& c) {
     A->begin_call();
     int r = call_api(A, c.ops[k], exc);
     for (auto& e : A->ew) fprintf(R, "%s\n", e.c_str());
-    fprintf(R, "OPR %zu ret=%d exc=%s nev=%zu firststop=%ld afterstop=%zu ierr=%d erron=%d errstron=%d\n", k, r, exc.c_str(), A->nall,
-            A->first_stop, A->after_stop, TestIPhreeqc::get_input_errors(A), (int)A->GetErrorOn(), (int)A->GetErrorStringOn());
+    fprintf(R, "OPR %zu ret=%d exc=%s nev=%zu firststop=%ld afterstop=%zu ierr=%d erron=%d errstron=%d throw=%s\n", k, r, exc.c_str(), A->nall,
+            A->first_stop, A->after_stop, TestIPhreeqc::get_input_errors(A), (int)A->GetErrorOn(), (int)A->GetErrorStringOn(),
+            exc == "-" ? "-" : throw_site().c_str());
     fprintf(R, "V %zu errstr %s\n", k, hx::hex(A->GetErrorString()).c_str());
     line_view("errlines", k, A->GetErrorStringLineCount(), [&](int i) { return std::string(A->GetErrorStringLine(i)); });
     fprintf(R, "V %zu warnstr %s\n", k, hx::hex(A->GetWarningString()).c_str());
@@ -247,7 +273,11 @@ static void child_main(const Case& c) {
     bool same = (va.size() == vb.size()) && ea == eb;
     std::string diff;
     for (size_t i = 0; i < va.size() && i < vb.size(); i++)
-      if (va[i] != vb[i]) { same = false; if (diff.empty()) diff = va[i].first + " " + hx::hex(va[i].second.substr(0, 4000)) + " " + hx::hex(vb[i].second.substr(0, 4000)); }
+      if (va[i] != vb[i]) { same = false; if (diff.empty()) {
+        const std::string &x = va[i].second, &y = vb[i].second; size_t k = 0;
+        while (k < x.size() && k < y.size() && x[k] == y[k]) ++k;
+        size_t from = k > 300 ? k - 300 : 0;
+        diff = va[i].first + " " + hx::hex(x.substr(from, 600)) + " " + hx::hex(y.substr(from, 600)); } }
     if (same) fprintf(R, "PROBE same ret=%d n=%zu\n", ra, va.size());
     else fprintf(R, "PROBE diff ret=%d/%d exc=%s/%s %s\n", ra, rbb, ea.c_str(), eb.c_str(), diff.empty() ? "count - -" : diff.c_str());
   } else {
